@@ -41,7 +41,10 @@ FILES = {
 SKIP = ("newLaunchedPlugin,startPreInstalledPlugins,discoverPlugins,getPluginConfig,isWasm,Log,newWasmPlugin,"
         "startListener,String,qualifiedName,DisablePluginLaunch,WithPluginPath,WithPluginConfigPath,WithSocketPath,"
         "Pretty,dump,Dump,EnvKeyValue,FromOCILinuxNamespaces,FromOCIHooks,FromOCIMounts,FromOCILinuxDevices,FromOCILinuxResources,"
-        "validateContainerAdjustment,WithDefaultValidator,getHostFunctions,WithTTRPCOptions")
+        "validateContainerAdjustment,WithDefaultValidator,getHostFunctions,WithTTRPCOptions,"
+        # added after the first batch (see triage.py): helpers no claimed property covers
+        "PrettyString,ParseEventMask,FromOCIEnv,Cmp,Hooks,WithResourceChecker,WithLabelFilter,WithAnnotationFilter,SpecGenerator,"
+        "DupStringSlice,DupStringMap,AccessString,startPlugins,ParsePluginName,initConfigLinux,initConfigHooks,initRlimits,splitEnvVar")
 
 lock = threading.Lock()
 
